@@ -132,7 +132,11 @@ def census(text, chains=None, titrate_only=None, ignore=()):
                         continue
                     d2 = (xyz[0] - x) ** 2 + (xyz[1] - y) ** 2 + (xyz[2] - z) ** 2
                     if d2 == 2500 ** 2:
-                        ties += 1
+                        # exactly 2.5 A: with all six coordinates on multiples of 0.125 A the floating-point
+                        # distance is exact and the strict "less than" of the rule decides - no bridge;
+                        # otherwise rounding decides and the input is not judged
+                        if not all(c % 125 == 0 for c in (x, y, z) + tuple(xyz)):
+                            ties += 1
                     elif d2 < 2500 ** 2:
                         s["bridged"] = True
             s["label"] = label_of(s["rtype"], s["resid"][1], s["resid"][0])
